@@ -355,7 +355,7 @@ class DisjunctionMaxMatcher(UnionMatcher):
         # It's kind of tedious to check for inactive sub-matchers all over
         # again here after we replace them, but it's probably better than
         # returning a replacement with an inactive sub-matcher
-        if not (a_active and b_active):
+        if not (a_active or b_active):
             return mcore.NullMatcher()
         elif not a_active:
             return b
